@@ -17,13 +17,10 @@
      eval_values / eval_args                                        call arguments, left to right
      expand        T env reference target (text, errors, calls)    a message/term/attribute reference
 
-   T : list (pname * pattern) = the messages / terms / attributes being expanded, by NAME (with their patterns);
-   a reference to one of them is a cycle.  How "is one of them" is decided is the parameter `is_open`:
-     open_by_identity   the reference names an entry that is being expanded            — the property;
-     open_by_structure  some pattern being expanded is structurally EQUAL to the target — what the code does
-                        (scope.rs: travelled.contains(&pattern) compares the patterns with ==).
-   The two agree on every bundle in which different entries have different patterns (C07_cycles_by_identity);
-   otherwise the code can report a cycle where there is none (finding, witness in Props/C07.v).
+   T : list pname = the messages / terms / attributes being expanded, by NAME (message value, message attribute,
+   term value, term attribute).  A reference to one of them is a cycle.  Two different entries with the same
+   text are different entries: expanding one from inside the other is no cycle (the resolver used to compare
+   patterns structurally there: finding D31, fixed; Props/C07.v C07_example_equal_patterns_no_cycle).
 
    env : option fargs.   None   = we are in a message: variables are the CALLER's arguments;
                          Some a = we are inside a term: variables are ONLY the named arguments `a`
@@ -45,7 +42,7 @@ Local Open Scope N_scope.
    fnumber_operands (Number.v), resolver_error / reference_kind / bentry / call_record,
    entry_find (the bundle is an association id -> entry, first registration wins: C10),
    find_attribute (first attribute of that name), plural_keyword (the six category names),
-   pattern_mem (structural membership, only in open_by_structure), lookup / ins_all (FluentArgs is a keyed map: C11). *)
+   lookup / ins_all (FluentArgs is a keyed map: C11). *)
 
 (* (text, errors, calls) and (value, errors, calls) *)
 Definition res : Type := bytes * list resolver_error * list call_record.
@@ -102,11 +99,8 @@ Definition attr_or_value (name : option bytes -> pname) (value : option pattern)
   | None => match value with Some q => Found (name None) q | None => Valueless id end
   end.
 
-(* the two readings of "is being expanded" (see the header) *)
-Definition open_by_identity (n : pname) (q : pattern) (T : list (pname * pattern)) : bool :=
-  existsb (fun x => pname_eqb n (fst x)) T.
-Definition open_by_structure (n : pname) (q : pattern) (T : list (pname * pattern)) : bool :=
-  pattern_mem q (map snd T).
+(* the entry named n is one of those being expanded *)
+Definition being_expanded (n : pname) (T : list pname) : bool := existsb (pname_eqb n) T.
 
 Section Spec.
 Variable call_function : bytes -> list fvalue -> fargs -> fvalue.    (* the registered functions, by name *)
@@ -118,7 +112,6 @@ Variable unescape : bytes -> bytes.                                  (* string-l
 Variable f64_from_str : bytes -> option fval.                        (* number-literal parsing (C12) *)
 Variable entries : list (bytes * bentry).                            (* the bundle: id -> message | term | function *)
 Variable args : option fargs.                                        (* the caller's arguments *)
-Variable is_open : pname -> pattern -> list (pname * pattern) -> bool. (* open_by_identity | open_by_structure *)
 
 Definition transformed (s : bytes) : bytes := match transform with Some tr => tr s | None => s end.
 
@@ -209,12 +202,12 @@ Definition named_name (n : named_arg) : bytes := match n with NamedArgument name
 Definition named_value (n : named_arg) : inline := match n with NamedArgument _ v => v end.
 
 (* ---------- the rules ---------- *)
-Inductive eval_pattern : list (pname * pattern) -> option fargs -> pattern -> res -> Prop :=
+Inductive eval_pattern : list pname -> option fargs -> pattern -> res -> Prop :=
 | P_elements T env els r :
     eval_elements T env els r ->
     eval_pattern T env (Pattern els) r
 
-with eval_elements : list (pname * pattern) -> option fargs -> list pattern_element -> res -> Prop :=
+with eval_elements : list pname -> option fargs -> list pattern_element -> res -> Prop :=
 | L_end T env :
     eval_elements T env [] (just [])
 | L_text T env s rest r :                                      (* text verbatim, after the transform *)
@@ -224,7 +217,7 @@ with eval_elements : list (pname * pattern) -> option fargs -> list pattern_elem
     eval_expr T env e r1 -> eval_elements T env rest r2 ->
     eval_elements T env (PlaceableElement e :: rest) (r1 +++ r2)
 
-with eval_expr : list (pname * pattern) -> option fargs -> expression -> res -> Prop :=
+with eval_expr : list pname -> option fargs -> expression -> res -> Prop :=
 | X_inline T env i r :
     eval_inline T env i r ->
     eval_expr T env (Inline i) r
@@ -236,7 +229,7 @@ with eval_expr : list (pname * pattern) -> option fargs -> expression -> res -> 
     eval_value T env sel (v, es, cs) -> chosen variants v = None ->
     eval_expr T env (Select sel variants) (silent es cs +++ fails [] MissingDefault)
 
-with eval_inline : list (pname * pattern) -> option fargs -> inline -> res -> Prop :=
+with eval_inline : list pname -> option fargs -> inline -> res -> Prop :=
 | I_string T env s :                                           (* neither transformed nor formatted *)
     eval_inline T env (StringLiteral s) (just (unescape s))
 | I_number T env s :
@@ -273,20 +266,20 @@ with eval_inline : list (pname * pattern) -> option fargs -> inline -> res -> Pr
     eval_inline T env (Placeable e) r
 
 (* r = the reference as written; what it stands for *)
-with expand : list (pname * pattern) -> option fargs -> inline -> target -> res -> Prop :=
+with expand : list pname -> option fargs -> inline -> target -> res -> Prop :=
 | R_found T env r n q out :
-    is_open n q T = false ->
-    eval_pattern ((n, q) :: T) env q out ->
+    being_expanded n T = false ->
+    eval_pattern (n :: T) env q out ->
     expand T env r (Found n q) out
 | R_cyclic T env r n q :                                       (* n is being expanded already: reported here, once, not entered *)
-    is_open n q T = true ->
+    being_expanded n T = true ->
     expand T env r (Found n q) (fails (in_braces r) Cyclic)
 | R_unknown T env r :                                          (* unknown message / term / attribute: {source form}, one error *)
     expand T env r Unknown (fails (in_braces r) (reference_error r))
 | R_valueless T env r id :                                     (* a message without a value referenced for its value *)
     expand T env r (Valueless id) (fails (in_braces r) (NoValue id))
 
-with eval_value : list (pname * pattern) -> option fargs -> inline -> vres -> Prop :=
+with eval_value : list pname -> option fargs -> inline -> vres -> Prop :=
 | V_string T env s :
     eval_value T env (StringLiteral s) (VString (unescape s), [], [])
 | V_number T env s :
@@ -308,7 +301,7 @@ with eval_value : list (pname * pattern) -> option fargs -> inline -> vres -> Pr
     eval_value T env i (VString t, es, cs)
 
 (* positional values, the named arguments as the callee receives them, errors, calls *)
-with eval_args : list (pname * pattern) -> option fargs -> option call_args
+with eval_args : list pname -> option fargs -> option call_args
                  -> list fvalue * fargs * list resolver_error * list call_record -> Prop :=
 | A_none T env :
     eval_args T env None ([], collect [], [], [])
@@ -318,7 +311,7 @@ with eval_args : list (pname * pattern) -> option fargs -> option call_args
     eval_args T env (Some (CallArguments positional named))
       (vp, collect (combine (map named_name named) vn), e1 ++ e2, c1 ++ c2)
 
-with eval_values : list (pname * pattern) -> option fargs -> list inline
+with eval_values : list pname -> option fargs -> list inline
                    -> list fvalue * list resolver_error * list call_record -> Prop :=
 | S_nil T env :
     eval_values T env [] ([], [], [])
@@ -329,6 +322,6 @@ with eval_values : list (pname * pattern) -> option fargs -> list inline
 (* Formatting the pattern named n (a message value, a message attribute, ...): n itself is the first
    entry being expanded, there are no term arguments. *)
 Definition Eval (n : pname) (r : res) : Prop :=
-  exists q, pattern_named n = Some q /\ eval_pattern [(n, q)] None q r.
+  exists q, pattern_named n = Some q /\ eval_pattern [n] None q r.
 
 End Spec.
